@@ -116,6 +116,16 @@ def judgeIfc (define : Bool) (g : GraphVal) (q : List (Str × Kind × Option Nat
       | .merge nm first second =>
         -- whatever the type reason, the error names the import, the first instantiation that
         -- leaves an import of exactly that name unsatisfied, and a later (or the same) one
+        match g.importNode? nm with
+        | some imp =>
+          -- an explicit import conflicting with what instantiations leave unsatisfied on its
+          -- name or semver track: `second` is the import, `first` the first such instantiation
+          let leaving := g.nodes.filter fun n => (reqsOfNode g n).any fun r => compatSpec r.name nm
+          let want := ((leaving.map (·.id)).head?).getD imp
+          if second != imp then some s!"merge conflict on explicit import {showStr nm}: second={second}, the import is node {imp}"
+          else if first != want then some s!"merge conflict on explicit import {showStr nm}: first={first}, expected {want}"
+          else none
+        | none =>
         let leaving := g.nodes.filter fun n => (reqsOfNode g n).any (·.name == nm)
         match leaving.head? with
         | none => some s!"merge conflict names import {showStr nm} that no instantiation leaves unsatisfied"
@@ -145,11 +155,21 @@ def judgeIfc (define : Bool) (g : GraphVal) (q : List (Str × Kind × Option Nat
         if nm == nm' && a == a' && b == b' then "ok"
         else s!"MODEL\tmerge conflict model=({showStr nm},{a},{b}) impl=({showStr nm'},{a'},{b'})"
       | .ok _, .merge _ _ _ => "ok"
+      -- ... also when the model goes on to a later error of its own
+      | .error (.implicitConflict _ _ _), .merge _ _ _ => "ok"
       | .panic _, .panic => "ok"
       | .panic s, _ => s!"MODEL\tmodel panics at {s}, impl does not"
       | _, .panic => "MODEL\timpl panics, model does not"
       | .ok _, _ => "MODEL\tmodel=ok impl=error"
-      | .error _, _ => "MODEL\tmodel=error, impl differs"
+      | .error e, r' =>
+        let me := match e with
+          | .cycle n => s!"cycle({n})"
+          | .implicitConflict nm i m => s!"implicit({showStr nm},{i},{m})"
+          | .mergeConflict nm a b => s!"merge({showStr nm},{a},{b})"
+        let ri := match r' with
+          | .ok _ => "ok" | .cycle n => s!"cycle({n})" | .implicit nm i m => s!"implicit({showStr nm},{i},{m})"
+          | .merge nm a b => s!"merge({showStr nm},{a},{b})" | .validation => "validation" | .panic => "panic" | .unreadable => "unreadable"
+        s!"MODEL\tmodel={me} impl={ri}"
 
 def judge (fs : List (List Char)) : String :=
   match fs with
